@@ -23,6 +23,9 @@ FIXED = [
  ("C03", "outside the XML Char production", "character references to code points outside the XML Char production (&#0; &#1; &#xFFFE;) were accepted"),
  ("C03", "same expanded name on one element are rejected", "two attributes with different prefixes bound to the same namespace and the same local name (p:x / q:x) were accepted"),
  ("C03", "declared twice on one element is rejected", "the same prefix (or xmlns) declared twice on one element was accepted"),
+ ("C18", "only treats XML whitespace", "text made of non-XML Unicode white space (U+00A0, U+0085, U+2003, U+2028 ...) was treated as insignificant whitespace and removed"),
+ ("C12", "unresolved_namespaces reports the namespace of an attribute", "clone_with_prefixes of an element that binds a namespace only as default namespace while a descendant attribute is in that namespace: the inherited prefixed binding was not copied, the clone failed to serialise (MissingPrefix) although the source serialised in place"),
+ ("C20", "xotify puts the trailing comments", "fixed::Document::xotify appended the `after` comments / processing instructions as children of the document element instead of as siblings after it"),
  ("C07", "reverse_children walks", "reverse_children(n) never terminated for a node with two or more ordinary children (indextree Children::next_back never advances); it yields the last child for ever"),
  ("C09", "prefix_for_namespace skips shadowed", "prefix_for_namespace returned None as soon as it met a prefix that a nearer declaration shadows, although another prefix (or the built-in xml prefix) was bound to the namespace further up"),
  ("C09", "qualified name of an attribute node never uses the empty prefix", "node_name_ref / name_ref / full_name on an attribute node whose namespace is only bound as the default namespace reported the empty prefix (which for an attribute means no namespace)"),
